@@ -14,6 +14,7 @@ import (
 	"errors"
 	"fmt"
 	"io"
+	"math"
 	"sync"
 	"time"
 
@@ -200,6 +201,9 @@ func (uw *unmarshalWork) Unmarshal() {
 			}
 			if row.Timestamp == NoTimestamp {
 				row.Timestamp = currentTs
+			} else if row.Timestamp > math.MaxInt64/tsMultiplier {
+				err = fmt.Errorf("timestamp %d is out of range for the given precision", row.Timestamp)
+				break
 			} else {
 				row.Timestamp *= tsMultiplier
 			}
@@ -215,6 +219,9 @@ func (uw *unmarshalWork) Unmarshal() {
 			}
 			if row.Timestamp == NoTimestamp {
 				row.Timestamp = currentTs
+			} else if row.Timestamp > math.MaxInt64/tsMultiplier {
+				err = fmt.Errorf("timestamp %d is out of range for the given precision", row.Timestamp)
+				break
 			} else {
 				row.Timestamp *= tsMultiplier
 			}
